@@ -20,7 +20,7 @@ func registerC16() {
 		Rule: "PRNG streams rich in unknown messages, unknown fields of known messages and developer fields, in five variants (intact, truncated at a PRNG offset, file CRC " +
 			"corrupted, data record on an undefined local type, a file type without container after a file_id with unlisted fields); each decoded under all 8 combinations of {logger, unknown fields, unknown messages} (options given in varying order, one of them sometimes twice) through a counting reader " +
 			"and a logger that formats every argument; decoded content, error text and bytes consumed must be identical across the 8 runs, the lists absent when their option is " +
-			"off, sorted, and equal to the model's counts (failing streams: at least the completed records, at most completed + the record in flight); family many: files with 5000 / 9000 / all (> 65000) distinct unknown message numbers, and with 6000 / 20000 distinct (known message, unlisted field number) pairs, one or two records each: the lists must name every one of them with its exact count; family chains: 2-3 such streams concatenated and decoded by DecodeChained under the 8 option sets: every File of the chain must carry exactly its own file's lists; non-trivial: the model " +
+			"off, sorted, and equal to the model's counts (failing streams: at least the completed records, at most completed + the record in flight); family many: files with 5000 / 9000 / all (> 65000) distinct unknown message numbers, and with 6000 / 20000 distinct (known message, unlisted field number) pairs, one or two records each, and files in which one unknown field / one unknown message occurs in 70000 records: the lists must name every one of them with its exact count; family chains: 2-3 such streams concatenated and decoded by DecodeChained under the 8 option sets: every File of the chain must carry exactly its own file's lists; non-trivial: the model " +
 			"expects at least one unknown message and one unknown field; distinct by stream digest",
 		Assume: []string{
 			"definitions do not list the same unknown field number twice (the count would then be per occurrence, which the statement does not define)",
@@ -30,7 +30,7 @@ func registerC16() {
 		Families: []lib.Family{
 			{Name: "streams", N: func(t string) uint64 { return tierN(t, 40000, 1000000) }, Run: c16Case},
 			{Name: "chains", N: func(t string) uint64 { return tierN(t, 4000, 100000) }, Run: c16Chain},
-			{Name: "many", N: func(t string) uint64 { return 6 }, Run: c16Many},
+			{Name: "many", N: func(t string) uint64 { return 8 }, Run: c16Many},
 		},
 	})
 }
@@ -424,6 +424,16 @@ func c16Many(c *lib.Ctx, idx uint64) {
 			for k := 0; k <= g%2; k++ {
 				plan.Records = append(plan.Records, ref.Record{Local: local, Data: [][]byte{{byte(k)}}})
 			}
+		}
+	case 6, 7:
+		// one item, very many records: 70 000 (66 000) records of one known message that all
+		// carry the same unlisted field, and as many records of one unknown message
+		n := []int{70000, 66000}[idx-6]
+		plan.Records = append(plan.Records,
+			ref.Record{IsDef: true, Local: 1, Arch: byte(idx % 2), Global: 20, Fields: []ref.FieldDef{{Num: 3, Size: 1, Base: 0x02}, {Num: 200, Size: 1, Base: 0x02}}},
+			ref.Record{IsDef: true, Local: 2, Arch: byte(idx % 2), Global: 0xFF01, Fields: []ref.FieldDef{{Num: 1, Size: 1, Base: 0x02}}})
+		for k := 0; k < n; k++ {
+			plan.Records = append(plan.Records, ref.Record{Local: 1, Data: [][]byte{{byte(60 + k%100)}, {byte(k)}}}, ref.Record{Local: 2, Data: [][]byte{{byte(k)}}})
 		}
 	default:
 		want := []int{6000, 20000, 6000}[idx-3]
